@@ -66,4 +66,395 @@ theorem Bv.reserve_refines (s : Bv) (k : Nat) (h : div_BvInv s) :
     obtain ⟨r1, r2, r3, _⟩ := Bvd.reserve_refines b k hb
     exact ⟨r1, r2, r3⟩
 
+-- ---- 2. shrinkToFit, withCapacity, zeros, ones ---------------------------------------------------------------
+/-- `Bv::shrink_to_fit`: a `Dynamic` of at most 128 bits is demoted to `Fixed` (the conversion cannot fail);
+the capacity afterwards is that of a freshly built vector of the same length. -/
+theorem Bv.shrinkToFit_refines (s : Bv) (h : div_BvInv s) :
+    div_BvInv s.shrinkToFit ∧ s.shrinkToFit.abs = s.abs ∧
+      s.shrinkToFit.capacity = (Bv.zeros s.len).capacity := by
+  rw [ag_zeros_capacity]
+  cases s with
+  | fixed b =>
+    have hl := Bv.len_le_capacity _ h
+    have hl : b.length ≤ 128 := hl
+    refine ⟨h, rfl, ?_⟩
+    rw [ag_len_fixed, if_pos hl]
+    rfl
+  | dynamic b =>
+    have hb : b.Inv := h
+    unfold Bv.shrinkToFit Bv.cap128
+    simp only
+    rw [ag_len_dynamic]
+    split
+    · rename_i hl
+      obtain ⟨r, e, r1, r2, r3⟩ := div_fromBvd_ok (w := 64) 2 b div_compat64 hb (by omega)
+      rw [e]
+      exact ⟨⟨r1, r3⟩, r2, rfl⟩
+    · obtain ⟨r1, r2, r3⟩ := Bvd.shrinkToFit_refines b hb
+      refine ⟨r1, r2, ?_⟩
+      show (Bvd.shrinkToFit b).data.size * 64 = _
+      rw [r3]
+
+theorem Bv.withCapacity_refines (c : Nat) :
+    div_BvInv (Bv.withCapacity c) ∧ (Bv.withCapacity c).abs = BV.zeros 0 ∧ c ≤ (Bv.withCapacity c).capacity := by
+  unfold Bv.withCapacity Bv.cap128
+  split
+  · rename_i hc
+    obtain ⟨r, e, r1, r2, r3⟩ := Bvf.zeros_ok (w := 64) 2 0 (by decide) (by omega)
+    rw [e]
+    exact ⟨⟨r1, r3⟩, r2, hc⟩
+  · obtain ⟨r1, r2, _, r4⟩ := Bvd.withCapacity_refines c
+    exact ⟨r1, r2, r4⟩
+
+theorem Bv.zeros_refines (n : Nat) : div_BvInv (Bv.zeros n) ∧ (Bv.zeros n).abs = BV.zeros n := by
+  unfold Bv.zeros Bv.cap128
+  split
+  · rename_i hn
+    obtain ⟨r, e, r1, r2, r3⟩ := Bvf.zeros_ok (w := 64) 2 n (by decide) (by omega)
+    rw [e]
+    exact ⟨⟨r1, r3⟩, r2⟩
+  · obtain ⟨r1, r2, _⟩ := Bvd.zeros_refines n
+    exact ⟨r1, r2⟩
+
+theorem Bv.ones_refines (n : Nat) : div_BvInv (Bv.ones n) ∧ (Bv.ones n).abs = BV.ones n := by
+  unfold Bv.ones Bv.cap128
+  split
+  · rename_i hn
+    obtain ⟨r, e, r1, r2, r3⟩ := Bvf.ones_ok (w := 64) 2 n (by decide) (by omega)
+    rw [e]
+    exact ⟨⟨r1, r3⟩, r2⟩
+  · obtain ⟨r1, r2, _⟩ := Bvd.ones_refines n
+    exact ⟨r1, r2⟩
+
+/-- the storage mode chosen by `Bv::zeros` / `Bv::ones` -/
+theorem Bv.zeros_isFixed (n : Nat) : (Bv.zeros n).isFixed = decide (n ≤ 128) := by
+  unfold Bv.zeros Bv.cap128
+  split <;> rename_i hn <;> simp [Bv.isFixed, hn]
+
+theorem Bv.ones_isFixed (n : Nat) : (Bv.ones n).isFixed = decide (n ≤ 128) := by
+  unfold Bv.ones Bv.cap128
+  split <;> rename_i hn <;> simp [Bv.isFixed, hn]
+
+-- ---- 3. push, pop, resize, mapRaw --------------------------------------------------------------------------
+/-- `Bv::push` never fails: `reserve(1)` first, so the inline `Bvf::push` always has room -/
+theorem Bv.push_ok (s : Bv) (b : Bool) (h : div_BvInv s) :
+    ∃ r, s.push b = .ok r ∧ div_BvInv r ∧ r.abs = s.abs.push b := by
+  obtain ⟨r1, r2, r3⟩ := Bv.reserve_refines s 1 h
+  unfold Bv.push
+  generalize s.reserve 1 = t at r1 r2 r3
+  cases t with
+  | fixed c =>
+    have hl : c.length = s.len := congrArg BV.len r2
+    have hc : c.length < c.data.size * 64 := by
+      rw [r1.2, hl]
+      have : s.len + 1 ≤ 128 := r3
+      omega
+    obtain ⟨r, e, p1, p2, p3⟩ := Bvf.push_ok c b (by decide) r1.1 hc
+    simp only [e]
+    exact ⟨_, rfl, ⟨p1, p3.trans r1.2⟩, by rw [ag_abs_fixed, p2]; exact congrArg (BV.push · b) r2⟩
+  | dynamic c =>
+    have hc : c.Inv := r1
+    obtain ⟨p1, p2⟩ := Bvd.push_refines c b hc
+    exact ⟨_, rfl, p1, by rw [ag_abs_dynamic, p2]; exact congrArg (BV.push · b) r2⟩
+
+theorem Bv.pop_refines (s : Bv) (h : div_BvInv s) :
+    div_BvInv s.pop.1 ∧ (s.pop.1.abs, s.pop.2) = s.abs.pop := by
+  cases s with
+  | fixed b =>
+    obtain ⟨p1, p2, p3⟩ := Raw.pop_refines b (by decide) h.1
+    exact ⟨⟨p1, p3.trans h.2⟩, p2⟩
+  | dynamic b =>
+    have hb : b.Inv := h
+    obtain ⟨p1, p2, _⟩ := Raw.pop_refines b (by decide) hb
+    exact ⟨p1, p2⟩
+
+/-- `Bv::resize` never fails, for any new length and any fill bit -/
+theorem Bv.resize_ok (s : Bv) (n : Nat) (bit : Bool) (h : div_BvInv s) :
+    ∃ r, s.resize n bit = .ok r ∧ div_BvInv r ∧ r.abs = s.abs.resize n bit :=
+  div_Bv_resize s n bit h
+
+/-- an in-place `Raw 64` operation that keeps invariant and allocation and refines `g` does so under either variant -/
+theorem Bv.mapRaw_refines (f : Raw 64 → Raw 64) (g : BV → BV) (s : Bv) (h : div_BvInv s)
+    (hf : (f s.raw).Inv ∧ (f s.raw).data.size = s.raw.data.size ∧ (f s.raw).abs = g s.raw.abs) :
+    div_BvInv (s.mapRaw f) ∧ (s.mapRaw f).abs = g s.abs ∧ (s.mapRaw f).isFixed = s.isFixed := by
+  cases s with
+  | fixed b => exact ⟨⟨hf.1, hf.2.1.trans h.2⟩, hf.2.2, rfl⟩
+  | dynamic b => exact ⟨hf.1, hf.2.2, rfl⟩
+
+/-- the uniform version of the task statement -/
+theorem Bv.mapRaw_refines' (f : Raw 64 → Raw 64) (g : BV → BV)
+    (hf : ∀ b : Raw 64, b.Inv → (f b).Inv ∧ (f b).data.size = b.data.size ∧ (f b).abs = g b.abs)
+    (s : Bv) (h : div_BvInv s) :
+    div_BvInv (s.mapRaw f) ∧ (s.mapRaw f).abs = g s.abs :=
+  let r := Bv.mapRaw_refines f g s h (hf s.raw (div_BvInv_raw h))
+  ⟨r.1, r.2.1⟩
+
+theorem Bv.set_refines (s : Bv) (i : Nat) (b : Bool) (h : div_BvInv s) (hi : i < s.len) :
+    div_BvInv (s.mapRaw (·.set i b)) ∧ (s.mapRaw (·.set i b)).abs = s.abs.set i b := by
+  obtain ⟨r1, r2, r3⟩ := Raw.set_refines s.raw i b (by decide) (div_BvInv_raw h) hi
+  have := Bv.mapRaw_refines (·.set i b) (·.set i b) s h ⟨r1, r3, r2⟩
+  exact ⟨this.1, this.2.1⟩
+
+theorem Bv.shlAssign_refines (s : Bv) (k : Nat) (h : div_BvInv s) :
+    div_BvInv (s.mapRaw (·.shlAssign k)) ∧ (s.mapRaw (·.shlAssign k)).abs = s.abs.shl k := by
+  have hr := div_BvInv_raw h
+  obtain ⟨r1, r2⟩ := Raw.shlAssign_refines s.raw (by decide) hr k
+  have := Bv.mapRaw_refines (·.shlAssign k) (·.shl k) s h ⟨r1, Raw.shlAssign_size s.raw (by decide) hr k, r2⟩
+  exact ⟨this.1, this.2.1⟩
+
+theorem Bv.shrAssign_refines (s : Bv) (k : Nat) (h : div_BvInv s) :
+    div_BvInv (s.mapRaw (·.shrAssign k)) ∧ (s.mapRaw (·.shrAssign k)).abs = s.abs.shr k := by
+  have hr := div_BvInv_raw h
+  obtain ⟨r1, r2⟩ := Raw.shrAssign_refines s.raw (by decide) hr k
+  have := Bv.mapRaw_refines (·.shrAssign k) (·.shr k) s h ⟨r1, Raw.shrAssign_size s.raw (by decide) hr k, r2⟩
+  exact ⟨this.1, this.2.1⟩
+
+theorem Bv.rotl_refines (s : Bv) (k : Nat) (h : div_BvInv s) (hk : k ≤ s.len) :
+    div_BvInv (s.mapRaw (·.rotl k)) ∧ (s.mapRaw (·.rotl k)).abs = s.abs.rotl k := by
+  have hr := div_BvInv_raw h
+  obtain ⟨r1, r2⟩ := Raw.rotl_refines s.raw (by decide) hr k hk
+  have := Bv.mapRaw_refines (·.rotl k) (·.rotl k) s h ⟨r1, Raw.rotl_size s.raw k, r2⟩
+  exact ⟨this.1, this.2.1⟩
+
+theorem Bv.rotr_refines (s : Bv) (k : Nat) (h : div_BvInv s) (hk : k ≤ s.len) :
+    div_BvInv (s.mapRaw (·.rotr k)) ∧ (s.mapRaw (·.rotr k)).abs = s.abs.rotr k := by
+  have hr := div_BvInv_raw h
+  obtain ⟨r1, r2⟩ := Raw.rotr_refines s.raw (by decide) hr k hk
+  have := Bv.mapRaw_refines (·.rotr k) (·.rotr k) s h ⟨r1, Raw.rotr_size s.raw k, r2⟩
+  exact ⟨this.1, this.2.1⟩
+
+-- ---- 5. copyRange ---------------------------------------------------------------------------------------------
+/-- `Bv::copy_range`: a `Fixed` source gives a `Fixed`; a `Dynamic` source gives a fresh `Bvd` that is demoted to
+`Fixed` when it has at most 128 bits (that conversion cannot fail). -/
+theorem Bv.copyRange_refines (s : Bv) (st en : Nat) (h : div_BvInv s) (hse : st ≤ en) (hen : en ≤ s.len) :
+    div_BvInv (s.copyRange st en) ∧ (s.copyRange st en).abs = s.abs.copyRange st en := by
+  cases s with
+  | fixed b =>
+    obtain ⟨r1, r2⟩ := Bvf.copyRange_refines b st en (by decide) h.1 hse hen
+    exact ⟨⟨r1, (Bvf.copyRange_size b st en).trans h.2⟩, r2⟩
+  | dynamic b =>
+    obtain ⟨r1, r2⟩ := Bvd.copyRange_refines b st en hse
+    unfold Bv.copyRange Bv.cap128
+    simp only
+    split
+    · rename_i hl
+      obtain ⟨r, e, p1, p2, p3⟩ := div_fromBvd_ok (w := 64) 2 (Bvd.copyRange b st en) div_compat64 r1 (by omega)
+      rw [e]
+      exact ⟨⟨p1, p3⟩, p2.trans r2⟩
+    · exact ⟨r1, r2⟩
+
+/-- the storage mode of the result: inline unless the source is on the heap and the range is longer than 128 bits -/
+theorem Bv.copyRange_isFixed (s : Bv) (st en : Nat) (hse : st ≤ en) :
+    (s.copyRange st en).isFixed = (s.isFixed || decide (en - st ≤ 128)) := by
+  cases s with
+  | fixed b => rfl
+  | dynamic b =>
+    unfold Bv.copyRange Bv.cap128
+    simp only
+    rw [Bvd.copyRange_length b st en hse]
+    split <;> rename_i hl <;> simp [Bv.isFixed, hl]
+
+-- ---- 4. append, prepend -------------------------------------------------------------------------------------
+/-- `Bv::append` never fails: a `Fixed` whose result would exceed 128 bits is first moved to the heap -/
+theorem Bv.append_ok (s : Bv) (x : AnyBv) (h : div_BvInv s) (hx : spl_Src x 8) (hx64 : spl_Src x 64) :
+    ∃ r, s.append x = .ok r ∧ div_BvInv r ∧ r.abs = s.abs.append x.abs := by
+  cases s with
+  | fixed b =>
+    unfold Bv.append Bv.cap128
+    simp only
+    split
+    · rename_i hl
+      obtain ⟨r, e, p1, p2, p3⟩ := Bvf.append_ok b x (by decide) (by decide) h.1 hx (by rw [h.2]; omega)
+      rw [e]
+      exact ⟨_, rfl, ⟨p1, p3.trans h.2⟩, p2⟩
+    · obtain ⟨f1, f2⟩ := div_Bvd_fromBvf b div_compat64 h.1
+      obtain ⟨p1, p2⟩ := Bvd.append_refines (Bvd.fromBvf b) x f1 hx64
+      exact ⟨_, rfl, p1, by rw [ag_abs_dynamic, p2, f2]; rfl⟩
+  | dynamic b =>
+    have hb : b.Inv := h
+    obtain ⟨p1, p2⟩ := Bvd.append_refines b x hb hx64
+    exact ⟨_, rfl, p1, p2⟩
+
+theorem Bv.prepend_ok (s : Bv) (x : AnyBv) (h : div_BvInv s) (hx : spl_Src x 8) (hx64 : spl_Src x 64) :
+    ∃ r, s.prepend x = .ok r ∧ div_BvInv r ∧ r.abs = s.abs.prepend x.abs := by
+  cases s with
+  | fixed b =>
+    unfold Bv.prepend Bv.cap128
+    simp only
+    split
+    · rename_i hl
+      obtain ⟨r, e, p1, p2, p3⟩ := Bvf.prepend_ok b x (by decide) (by decide) h.1 hx (by rw [h.2]; omega)
+      rw [e]
+      exact ⟨_, rfl, ⟨p1, p3.trans h.2⟩, p2⟩
+    · obtain ⟨f1, f2⟩ := div_Bvd_fromBvf b div_compat64 h.1
+      obtain ⟨p1, p2⟩ := Bvd.prepend_refines (Bvd.fromBvf b) x f1 hx64
+      exact ⟨_, rfl, p1, by rw [ag_abs_dynamic, p2, f2]; rfl⟩
+  | dynamic b =>
+    have hb : b.Inv := h
+    obtain ⟨p1, p2⟩ := Bvd.prepend_refines b x hb hx64
+    exact ⟨_, rfl, p1, p2⟩
+
+/-- the operand conditions of `append_ok` / `prepend_ok` hold for every operand of the crate: any `Bvf<I,N>` with
+`I ∈ {u8,…,u128}` (word width a multiple of 8 that divides or is a multiple of 64), any `Bvd`, any `Bv`. -/
+theorem ag_src_of_f {w : Nat} (b : Raw w) (h : b.Inv) (hw : 0 < w) (h8 : 8 ∣ w) (h64 : w ∣ 64 ∨ 64 ∣ w) :
+    spl_Src (.f w b) 8 ∧ spl_Src (.f w b) 64 :=
+  ⟨spl_Src.of_f b ⟨hw, by decide, Or.inl h8⟩ h, spl_Src.of_f b ⟨hw, by decide, h64.symm⟩ h⟩
+
+theorem ag_src_of_d (b : Raw 64) (h : b.Inv) : spl_Src (.d b) 8 ∧ spl_Src (.d b) 64 :=
+  ⟨spl_Src.of_d b ⟨by decide, by decide, Or.inl (by decide)⟩ h, spl_Src.of_d b div_compat64 h⟩
+
+theorem ag_src_of_bv (t : Bv) (h : div_BvInv t) : spl_Src t.any 8 ∧ spl_Src t.any 64 := by
+  cases t with
+  | fixed b => exact ag_src_of_f b h.1 (by decide) (by decide) (Or.inl (Nat.dvd_refl 64))
+  | dynamic b => exact ag_src_of_d b h
+
+-- ---- 6. conversions ---------------------------------------------------------------------------------------------
+/-- `From<Bvd> for Bv`: inline when it fits, otherwise the `Bvd` itself -/
+theorem Bv.fromBvd_refines (b : Raw 64) (hb : b.Inv) :
+    div_BvInv (Bv.fromBvd b) ∧ (Bv.fromBvd b).abs = b.abs ∧ (Bv.fromBvd b).isFixed = decide (b.length ≤ 128) := by
+  refine ⟨(div_Bv_fromBvd b hb).1, (div_Bv_fromBvd b hb).2, ?_⟩
+  unfold Bv.fromBvd
+  by_cases hl : b.length ≤ 128
+  · obtain ⟨r, e, _⟩ := div_fromBvd_ok (w := 64) 2 b div_compat64 hb (by omega)
+    rw [e]
+    simp [Bv.isFixed, hl]
+  · have e : Bvf.fromBvd 64 2 b = .err "NotEnoughCapacity" := by
+      unfold Bvf.fromBvd; rw [if_pos (by omega)]
+    rw [e]
+    simp [Bv.isFixed, hl]
+
+/-- `From<&Bvf<I,N>> for Bv`: the choice is made on the CAPACITY `N·w` of the source type -/
+theorem Bv.fromBvf_refines {w : Nat} (b : Raw w) (hc : Compat w 64) (hb : b.Inv) :
+    div_BvInv (Bv.fromBvf b) ∧ (Bv.fromBvf b).abs = b.abs ∧
+      (Bv.fromBvf b).isFixed = decide (b.data.size * w ≤ 128) := by
+  refine ⟨(div_Bv_fromBvf b hc hb).1, (div_Bv_fromBvf b hc hb).2, ?_⟩
+  unfold Bv.fromBvf Bv.cap128
+  split <;> rename_i hl <;> simp [Bv.isFixed, hl]
+
+/-- `From<uN> for Bv` (`W ∈ {8,16,32,64,128}`; more generally `W ≤ 128` or a multiple of 64) -/
+theorem Bv.fromUInt_refines (W x : Nat) (hW : W ≤ 128 ∨ 64 ∣ W) (hx : x < 2 ^ W) :
+    div_BvInv (Bv.fromUInt W x) ∧ (Bv.fromUInt W x).abs = ⟨W, x⟩ := by
+  unfold Bv.fromUInt Bv.cap128
+  split
+  · rename_i hl
+    have hbits : BV.natBits x ≤ W := (BV.natBits_le_iff _ _).mpr hx
+    obtain ⟨r, e, r1, r2, r3⟩ := (Bvf.fromUInt_spec (w := 64) 2 W x (by decide) (by decide) hx).2 (by omega)
+    rw [e]
+    refine ⟨⟨r1, r3⟩, ?_⟩
+    show r.abs = _
+    rw [r2, Nat.min_eq_left (by omega)]
+  · rename_i hl
+    exact Bvd.fromUInt_refines W x (by omega) hx
+
+theorem ag_foldl_mapRaw {α : Type} (g : α → Raw 64 → Raw 64) (l : List α) (t : Bv) :
+    l.foldl (fun a p => Bv.mapRaw (g p) a) t = Bv.mapRaw (fun r => l.foldl (fun r p => g p r) r) t := by
+  induction l generalizing t with
+  | nil => cases t <;> rfl
+  | cons p l ih => rw [List.foldl_cons, ih]; cases t <;> rfl
+
+/-- `From<&[I]> for Bv` is `Bvf::<u64,2>::try_from` (which then cannot fail) or `Bvd::from`, by total bit count -/
+theorem ag_fromSlice_eq (wJ : Nat) (xs : List Nat) :
+    Bv.fromSlice wJ xs =
+      if xs.length * wJ ≤ 128 then .fixed (unwrapD (Bvf.fromSlice 64 2 wJ xs))
+      else .dynamic (Bvd.fromSlice wJ xs) := by
+  unfold Bv.fromSlice
+  rw [ag_foldl_mapRaw (fun (p : Nat × Nat) (r : Raw 64) => r.setInt wJ p.1 (BitVec.ofNat wJ p.2))]
+  unfold Bv.zeros Bv.cap128
+  split
+  · rename_i hl
+    unfold Bvf.fromSlice Bvf.zeros
+    rw [if_neg (by omega), if_pos (by omega)]
+    rfl
+  · rfl
+
+theorem Bv.fromSlice_refines {wJ : Nat} (xs : List Nat) (hc : Compat 64 wJ) :
+    div_BvInv (Bv.fromSlice wJ xs) ∧ (Bv.fromSlice wJ xs).abs = ⟨xs.length * wJ, cnv_sliceVal wJ xs⟩ := by
+  rw [ag_fromSlice_eq]
+  split
+  · rename_i hl
+    obtain ⟨r, e, r1, r2, r3⟩ := (Bvf.fromSlice_spec (w := 64) 2 xs hc).2 (by omega)
+    rw [e]
+    exact ⟨⟨r1, r3⟩, r2⟩
+  · exact Bvd.fromSlice_refines xs hc
+
+/-- `Bv::from(&B)`; `hk`: when the operand's static type is `Bv` and it holds a `Fixed`, that is a `Bvf<u64,2>` -/
+theorem Bv.convert_refines (kind : SrcKind) (x : AnyBv) (hx : div_AnyInv x) (hc : Compat (div_anyW x) 64)
+    (hk : kind = .bv → ∀ w1 (b : Raw w1), x = .f w1 b → w1 = 64 ∧ b.data.size = 2) :
+    div_BvInv (Bv.convert kind x) ∧ (Bv.convert kind x).abs = x.abs :=
+  div_Bv_convert kind x hx hc hk
+
+/-- `uN::try_from(&Bv)`: never panics; an error exactly when the value does not fit in `W` bits -/
+theorem Bv.toUInt_spec (s : Bv) (W : Nat) (hc : Compat 64 W) (h : div_BvInv s) :
+    s.toUInt W = if s.abs.sig ≤ W then .ok s.abs.val else .err "NotEnoughCapacity" := by
+  cases s with
+  | fixed b => exact Bvf.toUInt_spec b W hc h.1
+  | dynamic b => exact Bvd.toUInt_spec b W h
+
+/-- `Bv::from_bytes` never fails -/
+theorem Bv.fromBytes_spec (bytes : List Nat) (big : Bool) (hb : ∀ b ∈ bytes, b < 256) :
+    ∃ r, Bv.fromBytes bytes big = .ok r ∧ div_BvInv r ∧ r.abs = BV.fromBytes bytes big ∧
+      r.isFixed = decide (bytes.length * 8 ≤ 128) := by
+  unfold Bv.fromBytes Bv.cap128
+  split
+  · rename_i hl
+    obtain ⟨r, e, r1, r2, r3, _⟩ := Bvf.fromBytes_ok (w := 64) 2 bytes big (by decide) (by decide) hb (by omega)
+    rw [e]
+    exact ⟨_, rfl, ⟨r1, r3⟩, r2, by simp [Bv.isFixed, hl]⟩
+  · rename_i hl
+    obtain ⟨r1, r2⟩ := Bvd.fromBytes_refines bytes big hb
+    exact ⟨_, rfl, r1, r2, by simp [Bv.isFixed, hl]⟩
+
+/-- `Bv::read`: the only error is `UnexpectedEof` (never `InvalidInput`), exactly when the input is too short -/
+theorem Bv.read_spec (input : List Nat) (length : Nat) (big : Bool) (hb : ∀ b ∈ input, b < 256) :
+    (input.length < (length + 7) / 8 → Bv.read input length big = .err "UnexpectedEof") ∧
+    ((length + 7) / 8 ≤ input.length →
+      ∃ r, Bv.read input length big = .ok (r, input.drop ((length + 7) / 8)) ∧ div_BvInv r ∧
+        r.abs = ⟨length, (BV.fromBytes (input.take ((length + 7) / 8)) big).val % 2 ^ length⟩ ∧
+        r.isFixed = decide (length ≤ 128)) := by
+  unfold Bv.read Bv.cap128
+  split
+  · rename_i hl
+    constructor
+    · intro hs
+      rw [Bvf.read_eof (w := 64) 2 input length big (by omega) hs]
+    · intro hs
+      obtain ⟨r, e, r1, r2, r3, _⟩ := Bvf.read_ok (w := 64) 2 input length big (by decide) (by decide) hb
+        (by omega) hs
+      rw [e]
+      exact ⟨_, rfl, ⟨r1, r3⟩, r2, by simp [Bv.isFixed, hl]⟩
+  · rename_i hl
+    constructor
+    · intro hs
+      rw [Bvd.read_eof input length big hs]
+    · intro hs
+      obtain ⟨r, e, r1, r2, _⟩ := Bvd.read_ok input length big hb hs
+      rw [e]
+      exact ⟨_, rfl, r1, r2, by simp [Bv.isFixed, hl]⟩
+
+open Parse in
+/-- `Bv::from_binary` (restated from `Parse.lean` with `div_BvInv`): never `NotEnoughCapacity` -/
+theorem Bv.fromBinary_refines (cs : List Char) :
+    Bv.fromBinary cs ≠ .err "NotEnoughCapacity" ∧
+    (∀ i, firstBad Bvf.binVal cs 0 = some i → Bv.fromBinary cs = .err s!"InvalidFormat({i})") ∧
+    (firstBad Bvf.binVal cs 0 = none →
+      ∃ r, Bv.fromBinary cs = .ok r ∧ div_BvInv r ∧ r.abs = ⟨cs.length, digitsVal 2 Bvf.binVal cs⟩ ∧
+        r.isFixed = decide (Bv.utf8Len cs ≤ 128)) := by
+  obtain ⟨h1, h2, h3⟩ := Bv.fromBinary_spec cs
+  refine ⟨h1, h2, fun hb => ?_⟩
+  obtain ⟨r, e, r1, r2, r3⟩ := h3 hb
+  exact ⟨r, e, (div_BvInv_iff_invB r).mpr r1, r2, r3⟩
+
+open Parse in
+/-- `Bv::from_hex` (restated from `Parse.lean` with `div_BvInv`): never `NotEnoughCapacity` -/
+theorem Bv.fromHex_refines (cs : List Char) :
+    Bv.fromHex cs ≠ .err "NotEnoughCapacity" ∧
+    (∀ i, firstBad Bvf.hexVal cs 0 = some i → Bv.fromHex cs = .err s!"InvalidFormat({i})") ∧
+    (firstBad Bvf.hexVal cs 0 = none →
+      ∃ r, Bv.fromHex cs = .ok r ∧ div_BvInv r ∧ r.abs = ⟨cs.length * 4, digitsVal 16 Bvf.hexVal cs⟩ ∧
+        r.isFixed = decide (Bv.utf8Len cs * 4 ≤ 128)) := by
+  obtain ⟨h1, h2, h3⟩ := Bv.fromHex_spec cs
+  refine ⟨h1, h2, fun hb => ?_⟩
+  obtain ⟨r, e, r1, r2, r3⟩ := h3 hb
+  exact ⟨r, e, (div_BvInv_iff_invB r).mpr r1, r2, r3⟩
+
 end Bva
